@@ -58,7 +58,7 @@ func init() {
 	core.Register(&core.Monitor{
 		ID:   "C24",
 		Race: true,
-		Rule: "inbound: histories of 200 API calls from the PRNG (RequestTxIds blocking/non-blocking with counts from {0,1,small,100,1000,65534,65535,uniform} 64%, counts outside 0..65535 incl. values that wrap to small uint16 12%, RequestTxs 12%, ...) against a raw client whose k-th reply carries a PRNG number of ids (0..10 70%, ..100 25%, ..1000 4%, ..3000 1%; one history in four gets a 3001..20000-id reply, quick case 0 a 65535/65534-id reply, thorough one case in sixteen a 65535/65534-id reply or a 65536..70000-id reply late in the history (each costs tens of CPU seconds in the receive path under the race detector), always to a blocking request; MsgDone to 5% of the blocking requests followed by a fresh MsgInit); outbound: sessions of 0..40 (sometimes 200) valid requests from a raw server followed by one terminal event in {ack>65535, req>65535, both, stop sentinel to blocking, stop sentinel to non-blocking, wrapped sentinel x2, none}. A case is non-trivial when at least one request was judged on the wire (inbound: >= 20 requests with a positive ack among them; outbound: terminal event reached); distinct by the hash of the script",
+		Rule: "inbound: histories of 200 API calls from the PRNG (RequestTxIds blocking/non-blocking with counts from {0,1,small,100,1000,65534,65535,uniform} 64%, counts outside 0..65535 incl. values that wrap to small uint16 12%, RequestTxs 12%, ...) against a raw client whose k-th reply carries a PRNG number of ids (0..10 70%, ..100 25%, ..1000 4%, ..3000 1%; one history in four gets a 3001..20000-id reply, quick case 0 a 32768-id reply, thorough one case in sixteen a 65535/65534-id reply or a 65536..70000-id reply late in the history (each costs tens of CPU seconds in the receive path under the race detector), always to a blocking request; MsgDone to 5% of the blocking requests followed by a fresh MsgInit); outbound: sessions of 0..40 (sometimes 200) valid requests from a raw server followed by one terminal event in {ack>65535, req>65535, both, stop sentinel to blocking, stop sentinel to non-blocking, wrapped sentinel x2, none}. A case is non-trivial when at least one request was judged on the wire (inbound: >= 20 requests with a positive ack among them; outbound: terminal event reached); distinct by the hash of the script",
 		MinNontrivial: 100,
 		RaceAnchors: []string{
 			"txsubmission.(*Server).RequestTxIds", "txsubmission.(*Server).handleDone",
@@ -215,7 +215,7 @@ var invalidCounts = []int{-1, -2, -65535, -65536, math.MinInt32, math.MinInt64, 
 // it. Replies above 3000 ids are only given to blocking requests (the
 // TxIdsBlocking state has no timeout; decoding a 2.6 MB reply under the race
 // detector can take longer than the 10 s the non-blocking state allows).
-func genInbound(r *core.Rand, rounds int, special int) *inScript {
+func genInbound(r *core.Rand, rounds int, special int, quick bool) *inScript {
 	s := &inScript{Tag: r.Uint64()}
 	for j := 0; j < rounds; j++ {
 		var op apiOp
@@ -251,8 +251,13 @@ func genInbound(r *core.Rand, rounds int, special int) *inScript {
 	}
 	switch special {
 	case 0: // a reply that makes the next acknowledgement the legal maximum
-		s.Special = "reply-65535"
-		force(r.Range(2, rounds/2), core.Pick(r, []int{65535, 65535, 65534}))
+		if quick {
+			s.Special = "reply-32768"
+			force(r.Range(2, rounds/2), 32768)
+		} else {
+			s.Special = "reply-65535"
+			force(r.Range(2, rounds/2), core.Pick(r, []int{65535, 65535, 65534}))
+		}
 	case 1: // a reply with more ids than one acknowledgement can carry
 		s.Special = "reply-above-65535"
 		force(r.Range(rounds/2, rounds*8/10), core.Pick(r, []int{65536, 65537, 70000, r.Range(65536, 70000)}))
@@ -328,6 +333,9 @@ func (rc *rawClient) snapshot() (ids, txs int, last wireEntry) {
 
 func (rc *rawClient) loop() {
 	defer close(rc.exited)
+	// leaving the loop (finding, error, stop) hangs up, so that an API call
+	// waiting for a reply returns
+	defer rc.p.Close()
 	if err := rc.p.SendMsg(protoTx, cborx.A(cborx.U(txsubmission.MessageTypeInit))); err != nil {
 		return
 	}
@@ -517,9 +525,9 @@ func runInbound(c *core.Ctx, i int, r *core.Rand) {
 	// One 65535-id reply costs tens of CPU seconds in the library's receive
 	// path under the race detector (the message is decoded again from its
 	// start for each of its 43 segments, every attempt copying it into fresh
-	// buffers), so only a few histories carry one: case 0 in quick (a
-	// 65535-id reply), one case in sixteen in thorough (alternating a
-	// 65535-id and a 65536..70000-id reply).
+	// buffers; the cost grows with the square of the size), so only thorough
+	// carries them, in one case of sixteen (alternating a 65535-id and a
+	// 65536..70000-id reply); quick case 0 gets a 32768-id reply instead.
 	special := 3
 	switch {
 	case c.Quick() && i == 0:
@@ -531,7 +539,7 @@ func runInbound(c *core.Ctx, i int, r *core.Rand) {
 	case i%4 == 2:
 		special = 2
 	}
-	s := genInbound(r, rounds, special)
+	s := genInbound(r, rounds, special, c.Quick())
 	c.Journal("C24 inbound case %d tag=%x", i, s.Tag)
 
 	a, b := rawpeer.Pipe()
